@@ -631,9 +631,10 @@ pub trait BackendTransaction {
                 }
             }
             None => {
-                // If there are no graphemes this means the attempt is for an empty string, so
-                // we return an empty result set.
-                return Ok((IdList::Indexed(IDLBitRange::new()), FilterPlan::Invalid));
+                // If there are no graphemes this means the attempt is for an empty string. The
+                // index can't narrow that down, and the entry filter test matches an empty
+                // substring against every value, so we must not claim an indexed empty result.
+                return Ok((IdList::AllIds, FilterPlan::SubUnindexed(attr.clone())));
             }
         };
 
